@@ -308,7 +308,8 @@ def apalache_builder_induction():
         noerr = "The outcome is: NoError" in p.stdout
         err = "The outcome is: Error" in p.stdout
         if not (noerr or err):
-            return dict(completed=False, reason="apalache gave no verdict on %s: %s" % (name, p.stdout[-400:]), obligations=done)
+            # e.g. a type error after an edit of Builder.tla: the specification is broken, not the code
+            raise ToolError("apalache gave no verdict on %s: %s" % (name, p.stdout[-600:]))
         if noerr != expect_ok:
             raise ToolError("Apalache obligation %s: expected %s, got %s" % (name, "NoError" if expect_ok else "Error", "NoError" if noerr else "Error"))
         done.append(name)
